@@ -1,6 +1,6 @@
 """C08  Validation enforces declared attribute constraints."""
 import ast
-from ..loader import dotted, walk_no_nested, norm, head, parents, stmts_of
+from ..loader import calls_in, dotted, walk_no_nested, norm, head, parents, stmts_of
 from ..q import nodes_calling
 
 EXPLANATION = """
@@ -10,6 +10,10 @@ Static clauses decided (necessary conditions of C08):
         comparison, float()/Decimal() conversion, isinstance(.., int_types)) -- must never be tested by truthiness
         (`if b`, `b and ..`, `b or default`, `not b`): a declared bound equal to 0 would be treated as absent and not
         enforced.  Names are followed through `converter.<name> = <name>` stores into sibling methods.
+ TRUST  `from_db=True` means "this value comes from the database, skip the declared checks".  The flag is never switched on for
+        program-supplied values: (1) a function that itself has a from_db parameter forwards it (or False) to every callee that
+        accepts one -- never a constant True, never the callee's default when that default is True; (2) a call that relies on a
+        default of True passes a value read from a cursor row.
  CHECK  Attribute.validate applies the user's py_check on every path that returns a converted non-None value, and
         Required.validate rejects '' and None.
  RANGE  IntConverter.validate / RealConverter.validate / DecimalConverter.validate compare the value with both
@@ -150,6 +154,37 @@ def run(ctx):
                 ok = False; detail = 'validate can return without comparing against %s' % bname
             ctx.ob('C08-RANGE.compares-and-throws', fn, tests[0].stmt if tests else fn.node, ok, detail)
 
+    # ------------------------------------------------------------ TRUST
+    accept = {}                      # method name -> (index of from_db among params without receiver, default)
+    for fn in repo.rule_funcs():
+        if fn.mod.name != 'pony.orm.core' or 'from_db' not in fn.params: continue
+        a = fn.node.args; names = [x.arg for x in a.args]
+        i = names.index('from_db'); nd = len(a.defaults); d = a.defaults[i - (len(names) - nd)] if i >= len(names) - nd else None
+        accept.setdefault(fn.name, set()).add((i - 1, d.value if isinstance(d, ast.Constant) else None))
+    n1 = n2 = 0
+    for fn in repo.rule_funcs():
+        if fn.mod.name != 'pony.orm.core': continue
+        for c in calls_in(fn.node):
+            if not (isinstance(c.func, ast.Attribute) and c.func.attr in accept): continue
+            if c.func.attr == 'validate' and not any(k.arg == 'from_db' for k in c.keywords) and len(c.args) < 4 and 'from_db' not in fn.params: continue
+            unbound = isinstance(c.func.value, ast.Name) and c.func.value.id[:1].isupper()      # Attribute.validate(attr, ...): receiver passed explicitly
+            idxs = {i for i, _ in accept[c.func.attr]}; dflts = {d for _, d in accept[c.func.attr]}
+            given = [k.value for k in c.keywords if k.arg == 'from_db'] + [c.args[i + (1 if unbound else 0)] for i in idxs if len(c.args) > i + (1 if unbound else 0)]
+            if 'from_db' in fn.params:
+                n1 += 1
+                if given: ok = all((isinstance(g_, ast.Name) and g_.id == 'from_db') or (isinstance(g_, ast.Constant) and g_.value is False) for g_ in given)
+                else: ok = True not in dflts
+                ctx.ob('C08-TRUST.from_db-forwarded', fn, c, ok, '' if ok else '%s has a from_db parameter but calls %s(...) with %s: a program-supplied value that reaches this call '
+                       'is treated as a trusted database value and the declared checks (range, length, strip) are skipped'
+                       % (fn.qual, c.func.attr, 'from_db=%s' % norm(given[0]) if given else 'the default from_db=True'), node=c, expected='from_db=from_db')
+            elif not given and True in dflts:
+                n2 += 1
+                src = norm(c.args[0]) if c.args else ''
+                ok = any(w in src for w in ('row', 'dbvals'))
+                ctx.ob('C08-TRUST.default-trust-only-for-database-rows', fn, c, ok, '' if ok else '%s(%s) relies on the default from_db=True for a value that is not a cursor row'
+                       % (c.func.attr, src), node=c, expected='from_db=False for program-supplied values')
+    ctx.floor('C08-TRUST', n1, 4, 'forwarding call sites in functions with a from_db parameter')
+    ctx.floor('C08-TRUST', n2, 8, 'call sites relying on the default from_db=True')
     # ------------------------------------------------------------ CHECK
     av = repo.fn('pony.orm.core', 'Attribute.validate')
     g = cg.cfg(av)
@@ -174,6 +209,9 @@ def run(ctx):
 
 
 MUTANTS = [
+    dict(id='C08-t1', file='pony/orm/core.py', fn='EntityMeta._get_by_raw_pkval_', old="val = attr.py_type._get_by_raw_pkval_(vals, from_db=from_db, seed=seed)", new="val = attr.py_type._get_by_raw_pkval_(vals, seed=seed)", expect='C08-TRUST'),
+    dict(id='C08-t2', file='pony/orm/core.py', fn='Attribute.validate', old="rentity._get_by_raw_pkval_(vals, from_db=from_db)", new="rentity._get_by_raw_pkval_(vals)", expect='C08-TRUST'),
+    dict(id='C08-t3', file='pony/orm/core.py', fn='Required.validate', old="        val = Attribute.validate(attr, val, obj, entity, from_db)", new="        val = Attribute.validate(attr, val, obj, entity, True)", expect='C08-TRUST'),
     dict(id='C08-m1', file='pony/orm/dbapiprovider.py', fn='IntConverter.validate',
          old='if converter.min_val is not None and val < converter.min_val:', new='if converter.min_val and val < converter.min_val:',
          expect='C08-TRUTH'),
